@@ -325,9 +325,9 @@ CENTERS = {1: {"c": [[0.0], [2.0], [3.6]], "t": [[1.0], [-1.2]]},
            3: {"c": [[0.0, 0.0, 0.0], [2.0, 0.5, 0.3], [0.7, 2.2, -0.4]], "t": [[1.0, 1.0, 1.0], [-0.8, 1.4, 0.5]]}}
 
 
-def sym_model(ctx, dim, nugget="sym", tag="", aniso=True):
+def sym_model(ctx, dim, nugget="sym", tag="", aniso=True, cls=None, anis_not_one=False):
     """generic model class (uninterpreted normalised correlation): covers every model class"""
-    U = gc.generic_model_class(ctx)
+    U = cls if cls is not None else gc.generic_model_class(ctx)
     v = ctx.real(tag + "var", lo=0.5, hi=2.0)
     l = ctx.real(tag + "len", lo=0.7, hi=2.0)
     ctx.require(ctx.And(ctx.gt(v, 0), ctx.gt(l, 0)))
@@ -344,6 +344,8 @@ def sym_model(ctx, dim, nugget="sym", tag="", aniso=True):
         anis = [ctx.real(tag + "anis%d" % i, lo=0.5, hi=2.0) for i in range(dim - 1)]
         for r in anis:
             ctx.require(ctx.gt(r, 0))
+            if anis_not_one:        # clearly anisotropic start model (outside the isclose window of is_isotropic)
+                ctx.require(ctx.Or(ctx.gt(r, 1.001), ctx.lt(r, 0.999)))
         kw["anis"] = anis
         kw["angles"] = ctx.reals(tag + "ang", dim * (dim - 1) // 2, angle=True)
     return quiet(U, dim=dim, var=v, len_scale=l, **kw)
@@ -359,6 +361,10 @@ def positions(ctx, tag, dim, n, kind):
 
 symrun.CONC_FUNCS.setdefault("udn", lambda z: float(np.sinh(z)))
 symrun.CONC_FUNCS.setdefault("un", lambda x: float(np.arcsinh(x)))
+symrun.CONC_FUNCS["udn2"] = lambda z: float(np.sinh(z) / 2.0)
+symrun.CONC_FUNCS["un2"] = lambda x: float(np.arcsinh(2.0 * x))
+symrun.CONC_FUNCS["udnp"] = lambda z, lam: float(np.sinh(lam * z) / lam)
+symrun.CONC_FUNCS["unp"] = lambda x, lam: float(np.arcsinh(lam * x) / lam)
 symrun.CONC_FUNCS["udrift0"] = lambda *x: float(0.8 * x[0] + 0.3 * np.sin(sum(x)) + 0.25 * sum(x[1:]))
 symrun.CONC_FUNCS["udrift1"] = lambda *x: float(np.cos(0.7 * x[0]) + 0.5 * x[-1] * x[-1])
 
@@ -391,6 +397,35 @@ def normalizer(ctx, kind):
         return None, (lambda x: x), (lambda z: z)
     if kind == "LogNormal":
         return gn.LogNormal, (lambda x: m.log(x)), (lambda z: m.exp(z))
+    if kind == "genericp":      # a normalizer with one parameter `lam` that `fit` re-estimates
+        class GenericP(gn.Normalizer):
+            fit_log = []
+
+            def _denormalize(self, data):
+                return _ufmap(ctx, "udnp", data, self.lam)
+
+            def _normalize(self, data):
+                return _ufmap(ctx, "unp", data, self.lam)
+
+            def fit(self, data, skip=None, **kwargs):
+                """ghost of Normalizer.fit (an optimiser, T5 residue): assumed contract 'changes the
+                parameter to some in-range value'"""
+                self.fit_log.append(data)
+                self.lam = self.lam_fitted
+        g = GenericP()
+        GenericP.fit_log = []
+        g.lam = ctx.real("lam0", lo=0.5, hi=1.5)
+        g.lam_fitted = ctx.real("lam_fitted", lo=0.5, hi=1.5)
+        ctx.require(ctx.And(ctx.gt(g.lam, 0), ctx.gt(g.lam_fitted, 0)))
+        return g, (lambda x: m.fn("unp", x, g.lam)), (lambda z: m.fn("udnp", z, g.lam))
+    if kind == "generic2":      # a second, different invertible normalizer
+        class Generic2(gn.Normalizer):
+            def _denormalize(self, data):
+                return _ufmap(ctx, "udn2", data)
+
+            def _normalize(self, data):
+                return _ufmap(ctx, "un2", data)
+        return Generic2(), (lambda x: m.fn("un2", x)), (lambda z: m.fn("udn2", z))
     if kind == "generic":
         class Generic(gn.Normalizer):
             def _denormalize(self, data):
@@ -445,7 +480,7 @@ def min_points(variant, dim):
 
 def build(ctx, variant, n, dim, err="nugget", norm="none", mean="none", trend="none",
           pinv=(True, "pinv"), nugget="sym", tag="", model=None, cpos=None, vals=None, ext=None, errs=None,
-          drift=None, like=None):
+          drift=None, like=None, override=None, ctor_kw=None):
     """a kriging set-up with symbolic model parameters, positions, values, measurement errors and
     drift values, built through the real constructor of the variant's class"""
     cls, unbiased, fd, ne = VARIANTS[variant]
@@ -462,6 +497,8 @@ def build(ctx, variant, n, dim, err="nugget", norm="none", mean="none", trend="n
     n_as = len(ctx.path.assume) if ctx.mode == "sym" else 0
     S.model = model if model is not None else sym_model(ctx, dim, nugget=nugget, tag=tag)
     S.model_req = list(ctx.path.assume[n_as:]) if ctx.mode == "sym" else []     # parameter requires
+    if like is not None and S.model is like.model:
+        S.model_req = list(like.model_req)
     S.cpos = cpos if cpos is not None else positions(ctx, tag + "p", dim, n, "c")
     if cls == "Detrended":              # takes a trend only ("zero mean and no normalizer")
         norm, mean = "none", "none"
@@ -477,6 +514,15 @@ def build(ctx, variant, n, dim, err="nugget", norm="none", mean="none", trend="n
         S.norm = norm
         S.mean, S.mean_at = mean_trend(ctx, tag + "mean", mean, dim)
         S.trend, S.trend_at = mean_trend(ctx, tag + "trend", trend, dim)
+    for key, val in (override or {}).items():   # settings prepared by the caller
+        if key == "norm":
+            S.narg, S.nm, S.dn, S.norm = val
+        elif key == "mean":
+            S.mean, S.mean_at = val
+        elif key == "trend":
+            S.trend, S.trend_at = val
+        else:
+            raise KeyError(key)
     S.pts = [[S.cpos[d, a] for d in range(dim)] for a in range(n)]
     S.val_req = list(like.val_req) if like is not None else []
     if vals is not None:
@@ -535,6 +581,7 @@ def build(ctx, variant, n, dim, err="nugget", norm="none", mean="none", trend="n
     S.m = n + int(unbiased) + S.di + S.de
     S.iu, S.if0, S.ie0 = n, n + int(unbiased), n + int(unbiased) + S.di
     kw = dict(exact=S.exact, cond_err=cond_err, pseudo_inv=pinv[0], pseudo_inv_type=pinv[1])
+    kw.update(ctor_kw or {})
     K = gs.krige
     vals_arr = arr(ctx, S.vals)
     n0 = len(CALLS["inv"])
